@@ -119,6 +119,45 @@ func bothLimits(prop string, thorough bool, faults []string, bound int) []qx.Sui
 	return items
 }
 
+// The scenario class "topic of the call": Writer.Topic in {"A", ""} x one WriteMessages call of 1..maxLen messages whose
+// message-level topics are a word over {"" (none), "A" (the name the Writer has or could have), "B" (another name)} -
+// every position of every length - sync and async, followed by a valid one-message call. With Writer.Topic="A" every
+// word with a message-level topic (same name or not, in any position) is a call the property says must be rejected
+// before anything is sent; with Writer.Topic="" the words without "" are valid calls to one or two topics (the words
+// with "" have no topic at all for a message: not a case the property speaks about; only "rejected => nothing sent" is
+// judged). Each word is a scenario of its own.
+func topicWords(prop string, thorough bool, bound int) []qx.SuiteItem {
+	maxLen := 3
+	if thorough {
+		maxLen = 4
+	}
+	name := map[byte]string{'-': "", 'A': "A", 'B': "B"}
+	var items []qx.SuiteItem
+	for _, wt := range []string{"A", ""} {
+		for _, word := range words("-AB", maxLen) {
+			for _, async := range []bool{false, true} {
+				var msgs []msgSpec
+				for _, ch := range []byte(word) {
+					msgs = append(msgs, msgSpec{P: 0, Topic: name[ch]})
+				}
+				after := msgSpec{P: 0}
+				if wt == "" {
+					after.Topic = "A"
+				}
+				mode := "sync"
+				if async {
+					mode = "async"
+				}
+				s := &WS{Name: fmt.Sprintf("topic-words-wt%s-%s-%s", map[string]string{"A": "A", "": "none"}[wt], mode, word), BatchSize: 2, MaxAttempts: 2, Acks: kafka.RequireOne,
+					WriterTopic: wt, Async: async, Topics: map[string]int{"A": 2, "B": 1},
+					Threads: [][]callSpec{{{Msgs: msgs}, {Msgs: []msgSpec{after}}}}, Faults: []string{"err:6"}}
+				items = append(items, qx.SuiteItem{Scn: s.Scenario(prop), Bound: bound, Whole: true, MinShare: 30 * time.Second})
+			}
+		}
+	}
+	return items
+}
+
 func Suite(prop, tier string) []qx.SuiteItem {
 	var items []qx.SuiteItem
 	add := func(s *WS, bound int) {
@@ -178,6 +217,7 @@ func Suite(prop, tier string) []qx.SuiteItem {
 		items = append(items, qx.SuiteItem{Scn: transportScenario(prop, b), Bound: b})
 	case "C08":
 		items = append(items, bothLimits(prop, thorough, []string{"err:6", "lost"}, b-1)...)
+		items = append(items, topicWords(prop, thorough, b-2)...)
 		// Message.totalSize of a message with 1-byte key and value "tXcYmZ|"+pad: 4+1+1+8+4+4 +1(hdr count) + 1 + (7+pad) = 31+pad
 		add(&WS{Name: "bytes-boundary", BatchSize: 10, BatchBytes: 100, MaxAttempts: 2, Acks: kafka.RequireOne, WriterTopic: "A",
 			Threads: [][]callSpec{{{Msgs: []msgSpec{{P: 0, Size: 19}, {P: 0, Size: 19}, {P: 0, Size: 18}}}, {Msgs: []msgSpec{{P: 0, Size: 69}, {P: 0, Size: 0}}}}, {{Msgs: []msgSpec{{P: 0, Size: 20}}}}}, Faults: []string{"err:6", "lost"}}, b)
